@@ -26,6 +26,13 @@ HERE = os.path.dirname(os.path.abspath(__file__))
 PINFILE = os.path.join(HERE, 'anchor_pins.json')
 BASE = 'a55d07f'     # the commit the properties' line numbers refer to
 
+# Code the hand-written model of a property mirrors although the property's anchors do not list it (callees of the anchored
+# functions): (file, kind, name regex).  Found by seeded changes the anchors alone did not notice.
+EXTRA = {
+    # the per-family parse functions of afisafi.rs (anchored) delegate to these; Model/Nlri.v parse_body mirrors them
+    'C05': [('src/bgp/nlri/%s.rs' % f, 'fn', r'parse\w*') for f in ('mpls', 'mpls_vpn', 'common', 'evpn', 'routetarget', 'vpls', 'flowspec')],
+}
+
 ITEM_RE = re.compile(r'\b(fn|enum|struct|union|macro_rules!|trait)\s+([A-Za-z_][A-Za-z_0-9]*)|\b([a-z_][a-z_0-9]*!)\s*[\(\{]')
 
 
@@ -146,6 +153,11 @@ def learn(repo, props_path):
                     key = '%s::%s %s#%d' % (f, k, n, occ)
                     if key not in chosen:
                         chosen.append(key)
+        for f, kind, rx in EXTRA.get(p['id'], []):
+            for k, n, occ, a, b in base_items(f) or []:
+                key = '%s::%s %s#%d' % (f, k, n, occ)
+                if k == kind and re.fullmatch(rx, n) and key not in chosen:
+                    chosen.append(key)
         out[p['id']] = chosen
     # hashes from the current tree
     pins = {}
